@@ -1154,7 +1154,7 @@ theorem GInv_append (s : State) (hg : GInv s) (g : Gauge) (b : Bank) (hid : g.id
     have := hg.solvent i
     unfold owedG; rw [hd]; simp only [amt_nil]; omega
 
-theorem createStream_same (s : State) (c : Coins) (rs : List Rec) (st e n : Nat) : Same s (createStream s c rs st e n).2 := by
+theorem createStream_same (s : State) (sp : Bool) (c : Coins) (rs : List Rec) (st e n : Nat) : Same s (createStream s sp c rs st e n).2 := by
   unfold createStream
   dsimp only
   repeat' split
@@ -1174,6 +1174,45 @@ theorem replaceDistr_same (s : State) (id : Nat) (rs : List Rec) : Same s (repla
   unfold replaceDistr
   repeat' split
   all_goals first | exact Same.refl _ | exact ⟨rfl, rfl, rfl, rfl⟩
+
+theorem updateDistr_same (s : State) (id : Nat) (rs : List Rec) : Same s (updateDistr s id rs).2 := by
+  unfold updateDistr
+  repeat' (first | split | dsimp only)
+  all_goals first | exact Same.refl _ | exact ⟨rfl, rfl, rfl, rfl⟩
+
+/-- `CreateAssetGauge` by any account other than the incentives module account keeps the gauge invariant -/
+theorem createGauge_ginv (s : State) (hg : GInv s) (o : Nat) (hw : o ≠ incAddr) (p : Bool) (d du : Nat) (hs : Bool) (c : Coins)
+    (st n : Nat) : GInv (createGauge s o p d du hs c st n).2 := by
+  unfold createGauge
+  split
+  · exact hg
+  · split
+    · exact hg
+    · split
+      · exact hg
+      · cases hsend : s.bank.send o incAddr c with
+        | none => exact hg
+        | some b =>
+          simp only
+          obtain ⟨_, sb⟩ := Bank.send_some hsend hw
+          refine GInv_append s hg _ b rfl rfl ?_
+          intro i
+          have := sb incAddr i
+          rw [if_neg (fun x => hw x.symm), if_pos rfl] at this
+          exact this
+
+/-- `CreatePoolGauge`: the streamer module account creates the gauges -/
+theorem poolGaugesLoop_ginv (denom : Nat) (hs : Bool) : ∀ (ds : List Nat) (s : State), GInv s → GInv (poolGaugesLoop denom hs ds s).2 := by
+  intro ds
+  induction ds with
+  | nil => intro s hg; exact hg
+  | cons d rest ih =>
+    intro s hg
+    unfold poolGaugesLoop
+    have h1 := createGauge_ginv s hg streamerAddr (by decide) true denom d hs [] s.now 1
+    generalize createGauge s streamerAddr true denom d hs [] s.now 1 = res at h1
+    obtain ⟨o, s'⟩ := res
+    cases o <;> first | exact ih s' h1 | exact h1
 
 theorem step_ginv (s : State) (op : Op) (hg : GInv s) (hw : op.wf) : GInv (step s op).2 := by
   unfold step
@@ -1209,25 +1248,7 @@ theorem step_ginv (s : State) (op : Op) (hg : GInv s) (hw : op.wf) : GInv (step 
         split
         · exact hg
         · exact GInv_append s hg _ s.bank rfl rfl (by intro i; simp)
-    | createGauge o p d du hs c st n =>
-      simp only
-      unfold createGauge
-      split
-      · exact hg
-      · split
-        · exact hg
-        · split
-          · exact hg
-          · cases hsend : s.bank.send o incAddr c with
-            | none => exact hg
-            | some b =>
-              simp only
-              obtain ⟨_, sb⟩ := Bank.send_some hsend hw
-              refine GInv_append s hg _ b rfl rfl ?_
-              intro i
-              have := sb incAddr i
-              rw [if_neg (fun x => hw x.symm), if_pos rfl] at this
-              exact this
+    | createGauge o p d du hs c st n => exact createGauge_ginv s hg o hw p d du hs c st n
     | addToGauge o gid c =>
       simp only
       unfold addToGauge
@@ -1265,9 +1286,12 @@ theorem step_ginv (s : State) (op : Op) (hg : GInv s) (hw : op.wf) : GInv (step 
                 simp only
                 unfold owed at *
                 omega
-    | createStream c rs st e n => exact (createStream_same s c rs st e n).ginv hg
+    | createStream sp c rs st e n => exact (createStream_same s sp c rs st e n).ginv hg
     | terminateStream id => exact (terminateStream_same s id).ginv hg
     | replaceDistr id rs => exact (replaceDistr_same s id rs).ginv hg
+    | updateDistr id rs => exact (updateDistr_same s id rs).ginv hg
+    | distribution rs => exact (Same.ginv (s := s) (s' := { s with distr := rs }) ⟨rfl, rfl, rfl, rfl⟩ hg)
+    | poolGauges d hs => exact poolGaugesLoop_ginv d hs lockableDurations s hg
 
 theorem run_ginv : ∀ (ops : List Op) (s : State), GInv s → (∀ op ∈ ops, op.wf) → GInv (run s ops) := by
   intro ops
